@@ -87,6 +87,15 @@ func ParseWriteSingleRegisterRequestTCP(data []byte) (*WriteSingleRegisterReques
 		tmpErr.Packet.Function = FunctionWriteSingleCoil
 		return nil, tmpErr
 	}
+	if len(data) < 12 {
+		// length in header matches the data but packet is too short for this function. NB: slicing data beyond
+		// its length would silently read stale bytes from the spare capacity of the underlying buffer
+		tmpErr := NewErrorParseTCP(ErrIllegalDataValue, "received data length too short to be valid packet")
+		tmpErr.Packet.TransactionID = header.TransactionID
+		tmpErr.Packet.UnitID = unitID
+		tmpErr.Packet.Function = FunctionWriteSingleRegister
+		return nil, tmpErr
+	}
 	return &WriteSingleRegisterRequestTCP{
 		MBAPHeader: header,
 		WriteSingleRegisterRequest: WriteSingleRegisterRequest{
